@@ -472,7 +472,25 @@ func runHistory(dir, engine string, orc *hx.Oracle, selfNoop bool, gn *gen, fixe
 	}
 	g := newGuest(engine, dir)
 	defer g.close()
-	orc.Askf("c16 f.init %s", b01(selfNoop))
+	orc.Askf("c16 f.init %s %s", b01(selfNoop), b01(byName))
+	// as-is F24: directory descriptors whose directory (or an ancestor) was renamed after they were opened.
+	// Path lookups through them are modelled (switch byName); their fd_readdir is not (the real code re-opens the
+	// directory by its old path on the first read only), so `ls` on them is not compared.
+	fdPath := map[int32]string{3: ""}
+	stale := map[int32]bool{}
+	join := func(dirfd int32, p string) (string, bool) {
+		base, ok := fdPath[dirfd]
+		if !ok {
+			return "", false
+		}
+		if p == "." {
+			return base, true
+		}
+		if base == "" {
+			return p, true
+		}
+		return base + "/" + p, true
+	}
 	poisoned := map[int32]bool{}
 	if gn != nil {
 		gn.poisoned = poisoned
@@ -489,6 +507,48 @@ func runHistory(dir, engine string, orc *hx.Oracle, selfNoop bool, gn *gen, fixe
 		done = append(done, o)
 		want := canonAns(o, orc.Ask("c16 "+o.line()))
 		got := o.exec(g, rng)
+		if byName && o.Op == "ls" && stale[o.Fd] {
+			rep.Count("hist-skip:ls-on-renamed-directory-descriptor(F24)")
+			continue
+		}
+		if strings.HasPrefix(want, "ESUCCESS") {
+			switch o.Op {
+			case "open":
+				var nfd int32
+				fmt.Sscanf(want, "ESUCCESS %d", &nfd)
+				delete(stale, nfd)
+				if p, ok := join(o.Fd, o.Path); ok {
+					fdPath[nfd] = p
+					if stale[o.Fd] {
+						stale[nfd] = true
+					}
+				} else {
+					delete(fdPath, nfd)
+				}
+			case "close":
+				delete(fdPath, o.Fd)
+				delete(stale, o.Fd)
+			case "renumber":
+				if o.Fd != o.Fd2 {
+					if p, ok := fdPath[o.Fd]; ok {
+						fdPath[o.Fd2] = p
+					} else {
+						delete(fdPath, o.Fd2)
+					}
+					stale[o.Fd2] = stale[o.Fd]
+					delete(fdPath, o.Fd)
+					delete(stale, o.Fd)
+				}
+			case "rename":
+				if from, ok := join(o.Fd, o.Path); ok {
+					for fd, p := range fdPath {
+						if fd != 3 && (p == from || strings.HasPrefix(p, from+"/")) {
+							stale[fd] = true
+						}
+					}
+				}
+			}
+		}
 		rep.Count("hist:" + o.Op)
 		if os.Getenv("HC16_TRACE") != "" {
 			fmt.Fprintf(os.Stderr, "%3d %-90s model=%s impl=%s\n", i, o.line(), clip(want), clip(got))
@@ -638,6 +698,7 @@ func replay(root, file string) {
 	orc := hx.StartOracle()
 	defer orc.Close()
 	selfNoop := probeF17(root)
+	byName = probeF24(root)
 	for i, in := range inputs {
 		var h histResult
 		if json.Unmarshal(in, &h) != nil || len(h.Ops) == 0 {
